@@ -52,6 +52,23 @@ Definition ipvlan_cont_cfg (g : gcfg) (li : Z) : list Z :=
   (Z.of_nat (length addrs) :: concat addrs) ++ (Z.of_nat (length routes) :: concat routes)
   ++ (Z.of_nat (length rules) :: concat rules) ++ (Z.of_nat (length neighs) :: concat neighs).
 
+(* generateContCfgForExclusiveENI (the pod gets the whole interface) and generateContCfgForVlan (a vlan sub-interface of the
+   trunk): default route through the subnet gateway (on-link), the same again in the interface's own table under
+   multi-network with a rule per source address and one for the outgoing interface; the exclusive interface reaches its
+   IPv6 gateway by a link-scoped host route and carries a host address unless multi-network keeps the subnet prefix; the
+   vlan interface always keeps the subnet prefix *)
+Definition own_cont_cfg (vlan : bool) (g : gcfg) (li : Z) : list Z :=
+  let addrs := map (fun f => [f; g_ip g; if vlan || g_multi g then subnet_len f else maxlen f]) (fams g) in
+  let routes := flat_map (fun f =>
+       (if (f =? 6) && negb vlan then [route 0 6 (g_gw g) 128 0 0 li 253 0] else [])
+       ++ (if g_def g then [route 0 f 0 0 f (g_gw g) li 0 1] else [])
+       ++ (if g_multi g then [route (tbl_of li) f 0 0 f (g_gw g) li 0 1] else [])) (fams g)
+       ++ map (extra_route li) (g_extra g) in
+  let rules := (if g_multi g then [rule 512 0 0 0 0 0 0 1 (tbl_of li)] else [])
+               ++ (if g_multi g then map (fun f => rule 512 f (g_ip g) (maxlen f) 0 0 0 0 (tbl_of li)) (fams g) else []) in
+  (Z.of_nat (length addrs) :: concat addrs) ++ (Z.of_nat (length routes) :: concat routes)
+  ++ (Z.of_nat (length rules) :: concat rules) ++ [0].
+
 Definition host_cfg (g : gcfg) (vi table : Z) : list Z :=
   let addrs := if negb (Z.of_nat (length (g_extra g)) =? 0) then map (fun f => [f; -1; maxlen f]) (fams g) else [] in
   let routes := map (fun f => route 0 f (g_ip g) (maxlen f) 0 0 vi 253 0) (fams g) in
